@@ -441,7 +441,7 @@ func (st *Runtime) executeList(list *ListNode) (returnValue reflect.Value) {
 					if v.Type().Implements(rendererType) {
 						v.Interface().(Renderer).Render(st)
 					} else {
-						_, err := fastprinter.PrintValue(st.escapeeWriter, v)
+						_, err := fastprinter.PrintValue(st.escapeeWriter, printable(v))
 						if err != nil {
 							node.error(err)
 						}
@@ -1325,13 +1325,23 @@ func (w *escapeWriter) Write(b []byte) (int, error) {
 	return 0, nil
 }
 
+// printable replaces a nil value of an interface type with methods (a nil error or
+// fmt.Stringer, e.g. a struct field of type error) by what fmt prints for it:
+// fastprinter asserts such values to their interface and panics on nil.
+func printable(v reflect.Value) reflect.Value {
+	if v.IsValid() && v.Kind() == reflect.Interface && v.IsNil() {
+		return reflect.ValueOf(fmt.Sprint(nil))
+	}
+	return v
+}
+
 func (st *Runtime) evalSafeWriter(term reflect.Value, node *CommandNode, v ...reflect.Value) {
 	sw := &escapeWriter{rawWriter: st.Writer, safeWriter: term.Interface().(SafeWriter)}
 	for i := 0; i < len(v); i++ {
-		fastprinter.PrintValue(sw, v[i])
+		fastprinter.PrintValue(sw, printable(v[i]))
 	}
 	for i := 0; i < len(node.Exprs); i++ {
-		fastprinter.PrintValue(sw, st.evalPrimaryExpressionGroup(node.Exprs[i]))
+		fastprinter.PrintValue(sw, printable(st.evalPrimaryExpressionGroup(node.Exprs[i])))
 	}
 }
 
